@@ -700,7 +700,9 @@ fn poly_run<T: Sc>(i: usize, rng: &mut StdRng) -> RunSpec<T> {
     let x = grid::<T>(n);
     let s = 1 + (i / 3) % 2;
     let y = DMatrix::from_fn(n, s, |r, c| T::of64(rng.gen_range(-3i64..=3) as f64 + if c == 1 { r as f64 * 0.5 } else { 0.0 }));
-    let w = match i % 3 {
+    let w = match if i % 8 == 5 { 3 } else { i % 3 } {
+        // one common weight for all samples, different from one (every observation has the same sigma)
+        3 => Some(vec![T::of64(if i % 16 == 5 { 0.25 } else { 2.0 }); n]),
         0 => None,
         1 => Some((0..n).map(|r| T::of64(1.0 + (r % 3) as f64 * 0.5)).collect()),
         _ => Some((0..n).map(|r| T::of64(if r == 1 { 0.0 } else if r == 2 { -1.0 } else { 2.0 })).collect()),
@@ -730,13 +732,17 @@ fn poly_run<T: Sc>(i: usize, rng: &mut StdRng) -> RunSpec<T> {
     }
 }
 
+/// sample count override for the uncertified exponential runs (0 = none): large problems
+static N_OVERRIDE: std::sync::atomic::AtomicUsize = std::sync::atomic::AtomicUsize::new(0);
+
 fn exp_run<T: Sc>(i: usize, near: bool, rng: &mut StdRng) -> RunSpec<T> {
     let fams3 = ["DExp", "DExpOff", "SExpOff"];
     let fams5 = ["DExp", "DExpOff", "SExpOff", "TExp", "GaussExpOff"];
     let wide = std::env::var("VPH_C05_WIDE").is_ok();
     let fam = if near && wide { fams5[i % 5] } else { fams3[i % 3] };
     let (_m, p) = exp_shape(fam);
-    let n = if near { 40 + (i * 37) % 360 } else { 30 + (i % 3) * 20 };
+    let n_over = N_OVERRIDE.load(std::sync::atomic::Ordering::Relaxed);
+    let n = if near { 40 + (i * 37) % 360 } else if n_over > 0 { n_over } else { 30 + (i % 3) * 20 };
     let s = [1usize, 2, 4][(i / 2) % 3];
     // noise level independent of the family (the family index is i % 3)
     let noise = if near { [0.0, 0.001, 0.01][(i / 3) % 3] } else { [0.0, 0.02][i % 2] };
@@ -752,7 +758,14 @@ fn exp_run<T: Sc>(i: usize, near: bool, rng: &mut StdRng) -> RunSpec<T> {
     } else {
         (x0, y0, truth0)
     };
-    let w = if i % 2 == 0 { None } else { Some((0..n).map(|_| T::of64(rng.gen_range(0.5..2.0))).collect()) };
+    let w = if i % 2 == 0 {
+        None
+    } else if i % 12 == 5 {
+        // one common sigma for all samples: all weights equal and different from one
+        Some(vec![T::of64(if i % 24 == 5 { 0.5 } else { 1.75 }); n])
+    } else {
+        Some((0..n).map(|_| T::of64(rng.gen_range(0.5..2.0))).collect())
+    };
     let start: Vec<T> = if near {
         truth.iter().map(|t| T::of64(t.to64() * (1.0 + rng.gen_range(-0.03..0.03)))).collect()
     } else {
@@ -847,7 +860,19 @@ fn gen_and_record<T: Sc>(mode: &str, count: usize, rng: &mut StdRng) -> Vec<RunO
             let mut i = 0usize;
             let mut budget = count;
             while budget > 0 {
+                // one scenario in 21 is LARGE: 2100 samples x 2 right hand sides through the parallel
+                // constructors (size dependent code paths must propagate failures like the small ones)
+                let large = i % 21 == 2;
+                if large {
+                    N_OVERRIDE.store(2100, std::sync::atomic::Ordering::Relaxed);
+                }
                 let mut base = if i % 3 == 2 { exp_run::<T>(i, false, rng) } else { poly_run::<T>(i, rng) };
+                N_OVERRIDE.store(0, std::sync::atomic::Ordering::Relaxed);
+                if large {
+                    base.par = true;
+                    base.mrhs = true;
+                    base.label = format!("{} large parallel", base.label);
+                }
                 if base.cfg.patience > 5 {
                     base.cfg.patience = 5;
                 }
